@@ -231,12 +231,15 @@ impl TryFrom<Val> for Rc<str> {
 impl From<&str> for Val {
     fn from(string: &str) -> Self {
         if let Some(string) = string.strip_prefix('&') {
-            if string.starts_with('H') || string.starts_with('h') {
-                if let Ok(num) = i16::from_str_radix(&string[1..], 16) {
+            // from_str_radix accepts a sign; &-1 and &H-F are not numbers
+            let (digits, radix) = match string.strip_prefix(['H', 'h']) {
+                Some(digits) => (digits, 16),
+                None => (string, 8),
+            };
+            if !digits.starts_with(['+', '-']) {
+                if let Ok(num) = i16::from_str_radix(digits, radix) {
                     return Val::Integer(num);
                 }
-            } else if let Ok(num) = i16::from_str_radix(string, 8) {
-                return Val::Integer(num);
             }
         }
         let mut s = String::from(string).replace('D', "E").replace('d', "e");
